@@ -631,6 +631,7 @@ static int32_t pstm_sqr_comba_gen(psPool_t *pool, const pstm_int *A,
  */
     iz  = B->used;
     B->used = pa;
+    B->sign = PSTM_ZPOS;
     {
         pstm_digit *tmpc;
         tmpc = B->dp;
